@@ -47,7 +47,7 @@ PROPS["C09"] = {
     "level": "proof",
     "text": "Loop-invariant proof that MultipleAdapters.match_to returns the match of the first adapter maximising (score, -errors); "
             "proof of the rounds loop of AdapterCutter.match_and_trim (each round searches what the previous one left; non-trim actions "
-            "applied once to the original read over the remainder interval); truth-table proof of LinkedAdapter.match_to.",
+            "applied once to the original read over the remainder interval); truth-table proof of LinkedAdapter.match_to.  The match_to methods of the six single-adapter classes are proved against the abstract Matchable.match_to contract.",
     "note": "Trusted: each adapter's match_to is a deterministic function of (adapter, string) satisfying the abstract Matchable "
             "contract (proved per class under C01/C08); linked parts are 5'/3' single adapters (parser, C18).",
     "assumptions": ["the index (IndexedPrefix/SuffixAdapters) is one Matchable among the others, as the statement excludes it"],
@@ -79,7 +79,7 @@ PROPS["C04"] = {
     "level": "other",
     "text": "Each pipeline step is proved against the abstract step contract: it returns None exactly when it consumes the read, and "
             "then exactly one write on exactly one writer and/or exactly one filter counter increment happened (ghost write log); "
-            "sinks pair write and statistics update.",
+            "sinks pair write and statistics update.  SingleEndPipeline.process_reads: every input read starts exactly one chain of calls, which ends at the first step that returns None.",
     "note": "Trusted: writers write what they are given; Predicate.test deterministic.  Report arithmetic (Statistics.collect / as_json) "
             "is checked by a bounded native stand-in.",
     "assumptions": ["writes are observed through a ghost log, not through files"],
@@ -100,7 +100,7 @@ PROPS["C05"] = {
             "that every paired writer call receives both mates of the same pair together (sinks, demultiplexers, redirecting filters), "
             "that the paired wrapper gives each modifier only its own mate, that --pair-adapters picks the best same-rank pair "
             "(loop invariant) and changes both mates or neither.  Bounded: file-level synchronisation on a command-line grid; the "
-            "'both is forced' rule of the command-line builder.",
+            "'both is forced' rule of the command-line builder.  PairedEndPipeline.process_reads: both mates travel together through every call.",
     "note": "Trusted: abstract modifier/predicate contracts (deterministic functions); writers write what they are given.",
     "assumptions": ["pair identity is the identity of the two record objects handed to the step"],
 }
@@ -110,7 +110,7 @@ PROPS["C11"] = {
     "text": "Each predicate's test is proved equal to the criterion in the statement (boundary values included, inputs symbolic); the "
             "filtering steps are proved to consume exactly the reads for which the criterion holds, count them once and redirect them "
             "iff a file was given (C04 step contracts).  Bounded: the order of the filter steps built by the command line is exercised "
-            "on a grid, predicting each read's destination from the statement.",
+            "on a grid, predicting each read's destination from the statement.  Both process_reads loops: a chain ends at the first call that returns None, so no later filter or output sees the read.",
     "note": "Trusted: floats as reals; expected_errors by its (proved, C14) contract; str.partition semantics.",
     "assumptions": ["the step order produced by cli.make_pipeline_from_args is covered by the bounded stand-in only"],
 }
@@ -120,7 +120,7 @@ PROPS["C10"] = {
     "text": "The modifier-assembling part of make_pipeline_from_args (and the generator helpers it calls, inlined) is executed "
             "symbolically with a symbolic argparse namespace: for all option subsets the resulting list is sorted by the documented "
             "rank and every item obeys the documented R1/R2 routing; the paired wrapper gives each modifier only its own mate.  "
-            "Bounded: option-order invariance and step-by-step composition on a command-line grid.",
+            "Bounded: option-order invariance and step-by-step composition on a command-line grid.  Both process_reads loops: modifiers, then steps, in list order, each call on what the previous call returned.",
     "note": "Trusted: argparse semantics; modifier constructors abstract; parse_cutoffs a deterministic function of its string.",
     "assumptions": ["at most three -u/-U and two --strip-suffix occurrences are modelled"],
 }
@@ -129,7 +129,7 @@ PROPS["C01"] = {
     "level": "proof",
     "text": "Column-invariant proof on the real Aligner.locate (lowered from _align.pyx on every run): memory safety of every array "
             "access, result intervals inside read and adapter, placement rule of the flag set, minimum overlap, N-discounted "
-            "tolerance, and existence of an alignment of the reported cost, for all adapters, reads, error rates and flag sets.",
+            "tolerance, and existence of an alignment of the reported cost, for all adapters, reads, error rates and flag sets.  Also proved: the match_to methods of the six single-adapter classes hand the aligner's result on unchanged (mirrored for the rightmost 5' adapter) as a match of the documented kind.",
     "note": "Trusted: double arithmetic as the uninterpreted monotone function budget(L); translate() byte tables (checked "
             "exhaustively); the thin match_to wrappers of the adapter classes (argument passing to locate, RightmostFrontAdapter's "
             "coordinate mirroring) are not under contract — they are exercised by the cross-check only.",
@@ -142,7 +142,7 @@ PROPS["C02"] = {
             "occurrence within tolerance forces a match for the flag sets that cannot skip the adapter start, with indels; (E3) the "
             "same for all flag sets when indels are disabled — via the completeness invariant cost <= Dist for all allowed starts.  "
             "Bounded: only the cut-position sentences (leftmost / rightmost copy), on a grid with a brute-force oracle.",
-    "note": "Trusted: as C01, plus rate < 1.  The comparers and adapter-class wrappers are covered by the bounded stand-in.",
+    "note": "Trusted: as C01, plus rate < 1.  The adapter-class wrappers (match_to) are under contract (cwrap.py); the cut-position sentences are covered by the bounded stand-in.",
     "assumptions": ["the occurrence is given as ghost parameters (universally quantified)"],
 }
 
@@ -169,7 +169,7 @@ PROPS["C06"] = {
     "level": "other",
     "text": "Scope-restricted.  Proved: OrderedChunkWriter.write keeps the invariant 'the file holds exactly the chunks 0.._current_index-1 "
             "in index order, everything else is waiting' for every arrival order (so the file content is a function of the set of "
-            "(index, data) messages only).  Bounded: -j N against -j 1 (bytes and JSON report) on a command-line grid.",
+            "(index, data) messages only).  Bounded: -j N against -j 1 (bytes and JSON report) on a command-line grid.  Statistics.__iadd__ (first half): read counts, reverse-complemented counts and the per-filter counts are merged as point-wise sums with the union of the keys.",
     "note": "NOT explored: OS schedules, IPC primitives, deadlock/liveness (assumed reliable FIFO connections and exactly-once queue).",
     "assumptions": ["no interleaving of processes is enumerated; the claim is about arrival-order independence of the main process"],
 }
